@@ -15,7 +15,7 @@ func init() { register("C13", checkC13) }
 func checkC13(p *Prog, r *Result, tier string) {
 	r.Technique = "pairing/dominance rules on the AST+CFG of doCreateWorkloads, atomic-group shape of BatchCreateAndDecr in both stores, sum-of-two-sources shape of GetDeployStatus, symbolic key evaluation of the prefix queries"
 	r.Explanation = "P1 the in-progress marker is created for the keys of the same map variable, with the same key->marker derivation, as the deferred deletion iterates, and the deletion is a defer of the producer registered before the transaction; P2 on the create path AddWorkload receives the marker (constant true from the deploy loop; nil only under !decrProcessing); " +
-		"P3 in each backend AddWorkload with a marker reaches BatchCreateAndDecr, which issues the record creates and the decrement inside one transaction primitive (etcd: one ETCDTxn whose Then holds puts and the decrement, compared on the marker value; redis: one TxPipelined closure holding Decr and the SetNX's, or one server-side script holding DECR and the SETs); P4 GetDeployStatus is deployed-count plus marker-count in both backends; PK both counts are read with prefix keys ending in the separator. P5 the deferred deletion runs under a context detached from the caller (utils.NewInheritCtx), so a cancelled request still cleans its markers up; W2 (from C14): markers are deleted before their log entries are committed."
+		"P3 in each backend AddWorkload with a marker reaches BatchCreateAndDecr, which issues the record creates and the decrement inside one transaction primitive (etcd: one ETCDTxn whose Then holds puts and the decrement, compared on the marker value; redis: one TxPipelined closure holding Decr and the SetNX's, or one server-side script holding DECR and the SETs); P4 GetDeployStatus is deployed-count plus marker-count in both backends, and reads the deployed records before the markers (the other order counts an instance twice when it is recorded between the reads); PK both counts are read with prefix keys ending in the separator. P5 the deferred deletion runs under a context detached from the caller (utils.NewInheritCtx), so a cancelled request still cleans its markers up; W2 (from C14): markers are deleted before their log entries are committed."
 	r.NotCovered = "the counts at intermediate steps of a run"
 	r.Assumptions = []string{"A4 an etcd Txn, a redis TxPipelined (MULTI/EXEC) and a redis server-side script apply their operations atomically", "A2 interface dispatch bounded by module types (mocks/fakes excluded)", "go/cfg dominance stands for execution order inside doCreateWorkloads"}
 	F := p.Fn("cluster/calcium.(*Calcium).doCreateWorkloads")
@@ -28,6 +28,7 @@ func checkC13(p *Prog, r *Result, tier string) {
 	r.min("P1", 1)
 	r.min("P2", 2)
 	r.min("P3", 4)
+	r.min("P4", 4)
 	r.min("P4", 2)
 	r.min("PK", 4)
 	r.min("P5", 1)
@@ -550,6 +551,34 @@ func checkP4(p *Prog, r *Result) {
 			r.ok("P4", key, p.pos(fn.Decl), "nodeCount[node] = deployed; nodeCount[node] += in-progress")
 		} else {
 			r.bad("P4", key, p.pos(fn.Decl), fmt.Sprintf("count is not the sum of exactly the deployed and the in-progress counts (sources %v from %v)", srcs, def))
+		}
+		// read order: the deployed records are read BEFORE the in-progress markers. An instance moves from marker to
+		// record in one atomic step; reading the records first can miss it for a moment (never more than prior + planned),
+		// reading the markers first counts it twice.
+		key2 := nm + " / the deployed records are read before the in-progress markers"
+		var firstDeployRead, markerRead ast.Node
+		fn.inspectBody(func(n ast.Node) bool {
+			c, ok := n.(*ast.CallExpr)
+			if !ok || fn.Callee(c) == nil {
+				return true
+			}
+			switch fn.Callee(c).Name() {
+			case "Get", "getByKeyPattern", "GetMulti":
+				if firstDeployRead == nil {
+					firstDeployRead = c
+				}
+			case "doLoadProcessing":
+				markerRead = c
+			}
+			return true
+		})
+		switch {
+		case firstDeployRead == nil || markerRead == nil:
+			r.undecided("P4", key2, p.pos(fn.Decl), "the two reads were not found")
+		case fn.dominates(fn.find(firstDeployRead), fn.find(markerRead)) && firstDeployRead.Pos() < markerRead.Pos():
+			r.ok("P4", key2, p.pos(markerRead), "the read of the deploy keys dominates doLoadProcessing")
+		default:
+			r.bad("P4", key2, p.pos(markerRead), "the in-progress markers are read before the deployed records: an instance that is recorded between the two reads (marker decremented and record created in one step) is counted as in progress AND as deployed — the status exceeds prior + planned")
 		}
 	}
 }
